@@ -9,11 +9,26 @@ from vizier._src.service import pythia_service, vizier_server, vizier_service
 
 
 class Script:
+  """The scripted outcome of the next algorithm call.  Per THREAD: in-process deployments call the policy
+  synchronously in the thread of the RPC, and the scheduler of C04 runs two RPCs in two threads."""
+
   def __init__(self):
-    self.alg = None
-    self.es = None
+    import threading
+    self._tl = threading.local()
     self.suggest_calls = 0
     self.es_calls = 0
+
+  def _get(self, name):
+    # the value set by THIS thread (in-process call); behind gRPC the policy runs in a server thread that
+    # never set one: the value set last
+    return getattr(self._tl, name) if hasattr(self._tl, name) else self.__dict__.get('_last_' + name)
+
+  def _set(self, name, v):
+    setattr(self._tl, name, v)
+    self.__dict__['_last_' + name] = v
+
+  alg = property(lambda self: self._get('alg'), lambda self, v: self._set('alg', v))
+  es = property(lambda self: self._get('es'), lambda self, v: self._set('es', v))
 
 
 def policy_factory(script):
@@ -51,15 +66,55 @@ def policy_factory(script):
   return factory
 
 
+def hosted_policy_factory(script):
+  """The REAL PartiallySerializableDesignerPolicy (config check, trial loader, state dump into study
+  metadata) hosting a scripted designer: what every stateful algorithm of the service runs inside."""
+  from vizier import algorithms as vza
+  from vizier._src.algorithms.policies import designer_policy as dp
+  from vizier.interfaces import serializable
+
+  class ScriptedDesigner(vza.PartiallySerializableDesigner):
+    def __init__(self, problem, **kwargs):
+      del problem, kwargs
+      self.n = 0
+
+    def update(self, completed, all_active):
+      del all_active
+      self.n += len(completed.trials)
+
+    def suggest(self, count=None):
+      del count
+      script.suggest_calls += 1
+      a = script.alg
+      if a['kind'] in ('rpc', 'other'):
+        raise svcreal.AlgorithmFailure('scripted failure')
+      return [vz.TrialSuggestion({'x': float(s['params'])}) for s in a['sugg']]
+
+    def dump(self):
+      md = vz.Metadata()
+      md['n'] = str(self.n)
+      return md
+
+    def load(self, md):
+      if 'n' not in md:
+        raise serializable.HarmlessDecodeError('no state')
+      self.n = int(md['n'])
+
+  def factory(problem_statement, algorithm, policy_supporter, study_name):
+    del algorithm, study_name
+    return dp.PartiallySerializableDesignerPolicy(problem_statement, policy_supporter, ScriptedDesigner)
+  return factory
+
+
 class Deployment:
   """kind: 'local' | 'grpc' | 'split'; backend: 'ram' | 'sqlmem'."""
 
-  def __init__(self, kind, backend, es_recycle=True):
+  def __init__(self, kind, backend, es_recycle=True, hosted=False):
     self.kind, self.backend = kind, backend
     self.script = Script()
     url = None if backend == 'ram' else 'sqlite:///:memory:'
     period = datetime.timedelta(seconds=0) if es_recycle else datetime.timedelta(days=3650)
-    fac = policy_factory(self.script)
+    fac = hosted_policy_factory(self.script) if hosted else policy_factory(self.script)
     self.server = None
     if kind == 'local':
       self.servicer = vizier_service.VizierServicer(database_url=url, early_stop_recycle_period=period)
